@@ -52,6 +52,11 @@ def gen_notify(rng, tier):
         wrap_p = rng.choice([0.0, 0.4, 0.8])
         toks, _ = gen_layers(rng, 1, rng.choice([1, 2, 3, 3, 4, 5]), 2, wrap_p, rng.random() < 0.3)
         if wrap_p and rng.random() < 0.2: toks.insert(rng.randrange(len(toks) + 1) if '(' not in toks else 0, rng.choice(['none', 'empty']))
+        # a run of two or more neighbouring top-level layers as ONE `Vec` subscriber (`[ … ]`; erased for the model: the same
+        # layers in the same order — including a member's veto, which must stop the rest of the stack like anybody's)
+        if '(' not in toks and len(toks) >= 2 and rng.random() < 0.3:
+            a = rng.randrange(len(toks) - 1); b = rng.randrange(a + 2, len(toks) + 1)
+            toks = toks[:a] + ['['] + toks[a:b] + [']'] + toks[b:]
         if rng.random() < 0.25: toks = [rng.choice(['@box', '@arc'])] + toks
         yield 'N ' + ' '.join(toks) + ' ;; ' + ' ; '.join(gen_notify_ops(rng, rng.choice([6, 15, 30])))
 
@@ -145,6 +150,19 @@ def classify(stream, case, out):
 
 _n = Stream('notify', 'h_layers', gen=gen_notify, nontrivial=nontrivial_notify, spec_mode='spec')
 _n.spec_match = lambda spec, impl: spec == 'no-spec' or spec == impl
+from checks.C07 import strip_vec as _strip_vec
+_n.model_case = _strip_vec
+_CONTROL = (':dispatch', ':subscribe', ':callsite', ':enabled', ':event_enabled')
+def _data_only(out):
+    """the data notifications (event, new_span, record, follows, enter, exit, close) each layer saw, in order"""
+    return ' '.join(','.join(e for e in tok.split(',') if not any(e.split('[')[0].endswith(k) for k in _CONTROL)) or '-' for tok in out.split(' '))
+def _n_spec_match(case, spec, impl):
+    # a Vec asks its members for registration / enabled in member order, an and_then chain asks outer first: with a `[ … ]` group in
+    # the stack the questions may arrive in another order than the model's (same answers); the data notifications may not
+    if spec == 'no-spec' or spec == impl: return True
+    return '[' in case.split(' ;; ')[0].split() and _data_only(spec) == _data_only(impl)
+_n.spec_match3 = _n_spec_match
+_n.model_match = lambda case, model, impl: _n_spec_match(case, model, impl)
 _p = Stream('pair', 'h_layers', gen=gen_pair, nontrivial=lambda case, out: ':' in case.split(' ;; ')[1] and out.count(':event') + out.count(':new_span') >= 2)
 _p.py_judge = judge_pair
 # (the executors respect the max level the stack publishes, as the macros do: an absent layer that drags it down silences its neighbours)
